@@ -43,6 +43,18 @@ pub struct Tr<'a> {
     pub file: String,
     pub deps: RefCell<BTreeSet<usize>>,
     pub counter: RefCell<usize>,
+    /// permission token: the call being translated may have `&mut` arguments (statement level only)
+    pub allow_mut: std::cell::Cell<bool>,
+    /// the places behind the `&mut` arguments of the call just translated
+    pub mut_places: RefCell<Option<Vec<Expr>>>,
+    /// set by `call`/`method_call` right before `emit_call`: (permitted, argument expressions)
+    pub cur_call: RefCell<Option<(bool, Vec<Expr>)>>,
+    /// names of methods of the spec that take `&mut self`
+    pub mut_methods: &'a std::collections::HashSet<String>,
+    /// innermost translated loop: (term for `continue`, term for `break`)
+    pub loops: RefCell<Vec<(String, String)>>,
+    /// ambient binders in scope (see TypeInfo::ambient_binders)
+    pub ambient: RefCell<Vec<(String, String)>>,
 }
 
 type K<'k> = dyn Fn(Val) -> R<String> + 'k;
@@ -86,6 +98,23 @@ impl<'a> Tr<'a> {
 
     // ------------------------------------------------------------------ function level
 
+    fn generics(&self) -> Generics {
+        let mut g = Generics::none();
+        g.usize_nat = self.f.usize_nat;
+        g
+    }
+
+    fn tmp(&self, env: &Env) -> String {
+        loop {
+            let mut c = self.counter.borrow_mut();
+            *c += 1;
+            let cand = format!("tmp{}_", *c);
+            if !env.coq_bound(&cand) {
+                return cand;
+            }
+        }
+    }
+
     /// Returns (binders, return type, body)
     pub fn function(&self) -> R<(Vec<(String, String)>, String, String)> {
         let f = self.f;
@@ -94,6 +123,17 @@ impl<'a> Tr<'a> {
         }
         let mut env = Env::new();
         let mut binders: Vec<(String, String)> = Vec::new();
+        // ambient binders of the state types among the parameters come first
+        for p in &f.params {
+            if let Ty::Named(n) = p.ty.strip_into() {
+                for b in &self.ctx.types[n].ambient_binders {
+                    if !binders.contains(b) {
+                        binders.push(b.clone());
+                    }
+                }
+            }
+        }
+        *self.ambient.borrow_mut() = binders.clone();
         let mut destructure: Vec<(Pat, String, Ty)> = Vec::new();
         for p in &f.params {
             match &p.ty {
@@ -116,7 +156,7 @@ impl<'a> Tr<'a> {
                 }
             }
         }
-        let ret = self.ctx.coq_ty(&f.ret).map_err(|m| format!("return type: {} at {}:{}", m, self.file, f.line))?;
+        let ret = self.ctx.coq_ty(&f.ret_full()).map_err(|m| format!("return type: {} at {}:{}", m, self.file, f.line))?;
         let mut prefix = String::new();
         for (pat, c, t) in destructure {
             let (e2, s) = self.bind_pat(&pat, val(c, t), &env)?;
@@ -141,7 +181,19 @@ impl<'a> Tr<'a> {
 
     fn finish(&self, v: Val) -> R<String> {
         self.check_ty(&v.ty, &self.f.ret, "returned value")?;
-        Ok(v.t)
+        if self.f.mut_params.is_empty() {
+            return Ok(v.t);
+        }
+        // `&mut` parameters are returned next to the result: their Coq names are those of the binders
+        // (later assignments shadow them, so the name denotes the current value here)
+        let mut parts = Vec::new();
+        if self.f.ret != Ty::Unit {
+            parts.push(v.t);
+        }
+        for &i in &self.f.mut_params {
+            parts.push(self.coq_name(&self.f.params[i].name));
+        }
+        Ok(if parts.len() == 1 { parts[0].clone() } else { format!("({})", parts.join(", ")) })
     }
 
     fn check_ty(&self, got: &Ty, want: &Ty, what: &str) -> R<()> {
@@ -177,13 +229,23 @@ impl<'a> Tr<'a> {
         match s {
             Stmt::Local(l) => {
                 let (pat, ann) = match &l.pat {
-                    Pat::Type(pt) => (&*pt.pat, Some(self.ctx.ty_of(&pt.ty, self.f.self_ty.as_ref(), None, &Generics { into: Default::default() }))),
+                    Pat::Type(pt) => (&*pt.pat, Some(self.ctx.ty_of(&pt.ty, self.f.self_ty.as_ref(), None, &self.generics()))),
                     p => (p, None),
                 };
                 let init = match &l.init {
                     Some(i) => {
-                        if i.diverge.is_some() {
-                            return self.err(s, "untranslatable: let-else");
+                        if let Some((_, div)) = &i.diverge {
+                            // let PAT = e else { diverging }  ==  match e { PAT => rest, _ => diverging }
+                            let pat2 = pat.clone();
+                            let div2 = (**div).clone();
+                            let cont = |v: Val| -> R<String> {
+                                let arms: Vec<(Pat, Box<dyn Fn(&Env) -> R<String> + '_>)> = vec![
+                                    (pat2.clone(), Box::new(|env2: &Env| self.block(rest, env2, exp, k))),
+                                    (syn::parse_quote!(_), Box::new(|env2: &Env| self.expr_k(&div2, env2, exp, k))),
+                                ];
+                                self.match_on(s, v, env, arms)
+                            };
+                            return self.eval_k(&i.expr, env, ann.as_ref(), &cont);
                         }
                         &*i.expr
                     }
@@ -195,10 +257,10 @@ impl<'a> Tr<'a> {
                     let r = self.block(rest, &env2, exp, k)?;
                     Ok(format!("{}{}", pre, r))
                 };
-                self.expr_k(init, env, ann.as_ref(), &cont)
+                self.eval_k(init, env, ann.as_ref(), &cont)
             }
             Stmt::Item(syn::Item::Const(c)) => {
-                let ty = self.ctx.ty_of(&c.ty, self.f.self_ty.as_ref(), None, &Generics { into: Default::default() });
+                let ty = self.ctx.ty_of(&c.ty, self.f.self_ty.as_ref(), None, &self.generics());
                 let v = self.expr(&c.expr, env, Some(&ty))?;
                 let (env2, cn) = self.bind(env, &c.ident.to_string(), ty);
                 let r = self.block(rest, &env2, exp, k)?;
@@ -212,15 +274,21 @@ impl<'a> Tr<'a> {
             Stmt::Macro(m) => {
                 let name = norm_tokens(&m.mac.path);
                 if name == "debug_assert" || name == "debug_assert_eq" || name == "debug_assert_ne" {
-                    // release semantics: no effect (the harness builds with debug assertions on, the model ignores them)
-                    return self.err(s, format!("untranslatable: macro {}!", name));
+                    // release semantics: no effect (documented as not modelled)
+                    return self.block(rest, env, exp, k);
                 }
                 self.err(s, format!("untranslatable: macro {}!", name))
             }
             Stmt::Expr(e, semi) => {
+                if let Expr::Macro(m) = e {
+                    let name = norm_tokens(&m.mac.path);
+                    if name.starts_with("debug_assert") {
+                        return self.block(rest, env, exp, k);
+                    }
+                }
                 if rest.is_empty() && semi.is_none() && !self.statement_like(e, env) {
                     // tail expression: its value is the block's value
-                    return self.expr_k(e, env, exp, k);
+                    return self.eval_k(e, env, exp, k);
                 }
                 self.stmt_expr(e, rest, env, exp, k)
             }
@@ -230,12 +298,16 @@ impl<'a> Tr<'a> {
     /// A unit-valued tail expression that acts on the state (assignment, push, an `if` that assigns).
     fn statement_like(&self, e: &Expr, env: &Env) -> bool {
         match e {
-            Expr::Assign(_) => true,
+            Expr::Assign(_) | Expr::Break(_) | Expr::Continue(_) | Expr::ForLoop(_) => true,
             Expr::Binary(b) => compound_op(&b.op).is_some(),
             Expr::MethodCall(mc) => is_list_mutator(&mc.method.to_string()),
             Expr::If(_) | Expr::Block(_) | Expr::Match(_) => {
                 if contains_return(e) {
                     return false;
+                }
+                if self.f.ret == Ty::Unit && !self.f.mut_params.is_empty() {
+                    // in a procedure every trailing if/match is a statement
+                    return true;
                 }
                 match self.mutated_outer(e, env) {
                     Ok(m) => !m.is_empty(),
@@ -252,58 +324,121 @@ impl<'a> Tr<'a> {
             Expr::Return(r) => {
                 let _ = rest;
                 match &r.expr {
-                    Some(x) => {
-                        let v = self.expr(x, env, Some(&self.f.ret))?;
-                        self.finish(v)
-                    }
-                    None => self.err(e, "untranslatable: `return` without value"),
+                    Some(x) => self.eval_k(x, env, Some(&self.f.ret), &|v: Val| self.finish(v)),
+                    None => self.finish(val("tt".into(), Ty::Unit)),
                 }
             }
+            Expr::Continue(c) => {
+                if c.label.is_some() {
+                    return self.err(e, "untranslatable: labelled `continue`");
+                }
+                match self.loops.borrow().last() {
+                    Some((cont, _)) => Ok(cont.clone()),
+                    None => self.err(e, "untranslatable: `continue` outside a translated loop"),
+                }
+            }
+            Expr::Break(b) => {
+                if b.label.is_some() || b.expr.is_some() {
+                    return self.err(e, "untranslatable: labelled or valued `break`");
+                }
+                match self.loops.borrow().last() {
+                    Some((_, brk)) => Ok(brk.clone()),
+                    None => self.err(e, "untranslatable: `break` outside a translated loop"),
+                }
+            }
+            Expr::ForLoop(fl) => self.for_loop(fl, rest, env, exp, k),
             Expr::Assign(a) => {
                 let rhs_ty = self.place_ty(&a.left, env)?;
-                let v = self.expr(&a.right, env, Some(&rhs_ty))?;
-                self.check_ty(&v.ty, &rhs_ty, "assigned value")?;
-                let (name, newv) = self.update_place(&a.left, v.t, env)?;
-                let r = self.block(rest, env, exp, k)?;
-                Ok(format!("let {} := {} in\n  {}", name, newv, r))
+                let left = (*a.left).clone();
+                let cont = |v: Val| -> R<String> {
+                    self.check_ty(&v.ty, &rhs_ty, "assigned value")?;
+                    let (name, newv) = self.update_place(&left, v.t, env)?;
+                    let r = self.block(rest, env, exp, k)?;
+                    Ok(format!("let {} := {} in\n  {}", name, newv, r))
+                };
+                self.eval_k(&a.right, env, Some(&rhs_ty), &cont)
             }
             Expr::Binary(b) if compound_op(&b.op).is_some() => {
                 let op = compound_op(&b.op).unwrap();
-                let cur = self.expr(&b.left, env, None)?;
-                let rhs = self.expr(&b.right, env, None)?;
-                let nv = self.binary(e, op, cur, rhs)?;
-                let (name, newv) = self.update_place(&b.left, nv.t, env)?;
-                let r = self.block(rest, env, exp, k)?;
-                Ok(format!("let {} := {} in\n  {}", name, newv, r))
+                let cur0 = self.expr(&b.left, env, None)?;
+                let hint = if matches!(cur0.ty, Ty::F64 | Ty::Int | Ty::Nat | Ty::Bool) { Some(cur0.ty.clone()) } else { None };
+                let left = (*b.left).clone();
+                let cont = |rhs: Val| -> R<String> {
+                    // the right operand is evaluated first (it may be a call that updates other places)
+                    let cur = self.expr(&left, env, None)?;
+                    let nv = self.binary(e, op, cur, rhs)?;
+                    let (name, newv) = self.update_place(&left, nv.t, env)?;
+                    let r = self.block(rest, env, exp, k)?;
+                    Ok(format!("let {} := {} in\n  {}", name, newv, r))
+                };
+                self.eval_k(&b.right, env, hint.as_ref(), &cont)
             }
-            Expr::MethodCall(mc) if is_list_mutator(&mc.method.to_string()) => {
-                // result.push(x)
-                let (rname, cname, lty) = match self.place_var(&mc.receiver, env) {
-                    Some(x) => x,
-                    None => return self.err(e, "untranslatable: mutating call on a non-variable"),
-                };
-                let elt = match &lty {
+            Expr::MethodCall(mc) if is_list_mutator(&mc.method.to_string()) && self.is_builtin_list(&mc.receiver, env) => {
+                // result.push(x), self.stash.clear(), out.extend(&xs), path.truncate(0)
+                let cur = self.expr(&mc.receiver, env, None)?;
+                let elt = match &cur.ty {
                     Ty::List(t) => (**t).clone(),
-                    _ => return self.err(e, format!("untranslatable: `{}` on a value of type {}", mc.method, lty.show())),
+                    t => return self.err(e, format!("untranslatable: `{}` on a value of type {}", mc.method, t.show())),
                 };
-                let _ = rname;
-                if mc.method == "push" && mc.args.len() == 1 {
-                    let x = self.expr(&mc.args[0], env, Some(&elt))?;
-                    self.check_ty(&x.ty, &elt, "pushed value")?;
-                    // refine an element type that was not known yet
-                    let mut env2 = env.clone();
-                    if elt == Ty::Unknown {
-                        for v in env2.vars.iter_mut() {
-                            if v.1 == cname {
-                                v.2 = Ty::List(Box::new(x.ty.clone()));
+                let m = mc.method.to_string();
+                let mut refine: Option<Ty> = None;
+                let newv = match (m.as_str(), mc.args.len()) {
+                    ("push", 1) => {
+                        let mut x = self.expr(&mc.args[0], env, Some(&elt))?;
+                        if x.ty == Ty::Range {
+                            // a stored range is a pair
+                            x = val(format!("({}, {})", x.t, x.t2.clone().unwrap_or_default()), Ty::Tuple(vec![Ty::F64, Ty::F64]));
+                        }
+                        self.check_ty(&x.ty, &elt, "pushed value")?;
+                        if elt == Ty::Unknown {
+                            refine = Some(Ty::List(Box::new(x.ty.clone())));
+                        }
+                        format!("({} ++ [{}])", cur.t, x.t)
+                    }
+                    ("extend", 1) => {
+                        let x = self.expr(&mc.args[0], env, Some(&cur.ty))?;
+                        self.check_ty(&x.ty, &cur.ty, "extension")?;
+                        format!("({} ++ {})", cur.t, x.t)
+                    }
+                    ("clear", 0) => "[]".to_string(),
+                    ("truncate", 1) if norm_tokens(&mc.args[0]) == "0" => "[]".to_string(),
+                    ("sort_by", 1) => {
+                        // the only comparator understood: |a, b| a.partial_cmp(b).unwrap() on f64 (ascending; the
+                        // spec names the Coq function standing for the standard library's stable sort)
+                        let c = norm_tokens(&mc.args[0]);
+                        match (c.as_str(), self.ctx.consts.get("sort_by_partial_cmp")) {
+                            ("|a,b|a.partial_cmp(b).unwrap()", Some(f)) if elt == Ty::F64 || elt == Ty::Unknown => format!("({} {})", f, cur.t),
+                            _ => return self.err(e, "untranslatable: `sort_by` with this comparator"),
+                        }
+                    }
+                    ("swap", 2) => {
+                        let i = self.expr(&mc.args[0], env, Some(&Ty::Nat))?;
+                        let j = self.expr(&mc.args[1], env, Some(&Ty::Nat))?;
+                        if elt != Ty::F64 {
+                            return self.err(e, "untranslatable: `swap` on a list of non-scalars");
+                        }
+                        format!("(tr_swap {} {} {})", cur.t, i.t, j.t)
+                    }
+                    _ => return self.err(e, format!("untranslatable: list operation `{}`", mc.method)),
+                };
+                let (name, whole) = self.update_place(&mc.receiver, newv, env)?;
+                let mut env2 = env.clone();
+                if let Some(t) = refine {
+                    for v in env2.vars.iter_mut() {
+                        if v.1 == name {
+                            if let Ty::List(_) = v.2 {
+                                v.2 = t.clone();
                             }
                         }
                     }
-                    let r = self.block(rest, &env2, exp, k)?;
-                    Ok(format!("let {} := ({} ++ [{}]) in\n  {}", cname, cname, x.t, r))
-                } else {
-                    self.err(e, format!("untranslatable: list operation `{}`", mc.method))
                 }
+                let r = self.block(rest, &env2, exp, k)?;
+                Ok(format!("let {} := {} in\n  {}", name, whole, r))
+            }
+            Expr::Call(_) | Expr::MethodCall(_) => {
+                // a procedure call: its `&mut` arguments are rebound, its value (if any) is dropped
+                let cont = |_v: Val| -> R<String> { self.block(rest, env, exp, k) };
+                self.eval_k(e, env, None, &cont)
             }
             Expr::If(_) | Expr::Block(_) | Expr::Match(_) => {
                 if contains_return(e) {
@@ -330,7 +465,7 @@ impl<'a> Tr<'a> {
                     }
                 }
             }
-            Expr::ForLoop(_) | Expr::While(_) | Expr::Loop(_) => self.err(e, "untranslatable: loop"),
+            Expr::While(_) | Expr::Loop(_) => self.err(e, "untranslatable: `while`/`loop` (no structural bound)"),
             Expr::Macro(m) => self.err(e, format!("untranslatable: macro {}!", norm_tokens(&m.mac.path))),
             _ => self.err(e, "untranslatable: expression statement"),
         }
@@ -342,22 +477,233 @@ impl<'a> Tr<'a> {
         Ok(())
     }
 
+    /// `for PAT in LIST { BODY }` as a local structural fixpoint over the list.  The outer variables the
+    /// body assigns are its accumulator arguments; when the body can `return`/`break`, what follows the
+    /// loop is placed in the `[]` branch (the loop is then in tail position), otherwise the loop yields
+    /// the final accumulators.
+    fn for_loop(&self, fl: &syn::ExprForLoop, rest: &[Stmt], env: &Env, exp: Option<&Ty>, k: &K) -> R<String> {
+        if fl.label.is_some() {
+            return self.err(fl, "untranslatable: labelled loop");
+        }
+        let it = self.expr(&fl.expr, env, None)?;
+        let elt = match it.ty.strip_into() {
+            Ty::List(t) => (**t).clone(),
+            t => return self.err(fl, format!("untranslatable: `for` over a value of type {} (only lists)", t.show())),
+        };
+        let body_e = Expr::Block(syn::ExprBlock { attrs: vec![], label: None, block: fl.body.clone() });
+        let muts = self.mutated_outer(&body_e, env)?;
+        let escapes = {
+            // return anywhere, or break at this loop's level
+            use syn::visit::Visit;
+            struct V(bool, usize);
+            impl<'ast> Visit<'ast> for V {
+                fn visit_expr_return(&mut self, _: &'ast syn::ExprReturn) {
+                    self.0 = true;
+                }
+                fn visit_expr_break(&mut self, _: &'ast syn::ExprBreak) {
+                    if self.1 == 0 {
+                        self.0 = true;
+                    }
+                }
+                fn visit_expr_for_loop(&mut self, x: &'ast syn::ExprForLoop) {
+                    self.1 += 1;
+                    syn::visit::visit_expr_for_loop(self, x);
+                    self.1 -= 1;
+                }
+                fn visit_expr_closure(&mut self, _: &'ast syn::ExprClosure) {}
+                fn visit_item(&mut self, _: &'ast syn::Item) {}
+            }
+            let mut v = V(false, 0);
+            v.visit_block(&fl.body);
+            v.0
+        };
+        let n = {
+            let mut c = self.counter.borrow_mut();
+            *c += 1;
+            *c
+        };
+        let (lp, lv, rv, xv) = (format!("tr_loop{}", n), format!("tr_l{}", n), format!("tr_r{}", n), format!("tr_x{}", n));
+        let names: Vec<String> = muts.iter().map(|m| env.get(m).unwrap().1.clone()).collect();
+        let mut binders = String::new();
+        for m in &muts {
+            let (_, c, ty) = env.get(m).unwrap();
+            let ct = self.ctx.coq_ty(ty).unwrap_or_else(|_| "_".to_string());
+            binders.push_str(&format!(" ({} : {})", c, ct));
+        }
+        let tuple = if names.len() == 1 { names[0].clone() } else { format!("({})", names.join(", ")) };
+        if !escapes && names.is_empty() {
+            return self.err(fl, "untranslatable: loop without effect on the translated state");
+        }
+        let end_term = if escapes { self.block(rest, env, exp, k)? } else { tuple.clone() };
+        let cont_term = format!("({} {}{})", lp, rv, names.iter().map(|x| format!(" {}", x)).collect::<String>());
+        let (env2, pre) = self.bind_pat(&fl.pat, val(xv.clone(), elt.clone()), env)?;
+        self.loops.borrow_mut().push((cont_term.clone(), end_term.clone()));
+        let ct2 = cont_term.clone();
+        let body = self.block(&fl.body.stmts, &env2, None, &move |_v: Val| -> R<String> { Ok(ct2.clone()) });
+        self.loops.borrow_mut().pop();
+        let body = body?;
+        let elt_ct = self.ctx.coq_ty(&elt).unwrap_or_else(|_| "_".to_string());
+        let fix = format!(
+            "((fix {lp} ({lv} : list {et}){bs} {{struct {lv}}} := match {lv} with\n  | [] => {end}\n  | {xv} :: {rv} => {pre}{body}\n  end) {it}{args})",
+            lp = lp,
+            lv = lv,
+            et = elt_ct,
+            bs = binders,
+            end = end_term,
+            xv = xv,
+            rv = rv,
+            pre = pre,
+            body = body,
+            it = it.t,
+            args = names.iter().map(|x| format!(" {}", x)).collect::<String>()
+        );
+        if escapes {
+            Ok(fix)
+        } else {
+            let r = self.block(rest, env, exp, k)?;
+            if names.len() == 1 {
+                Ok(format!("let {} := {} in\n  {}", tuple, fix, r))
+            } else {
+                Ok(format!("let '{} := {} in\n  {}", tuple, fix, r))
+            }
+        }
+    }
+
+    /// A one-parameter closure used as an argument of an iterator combinator: `(fun x => body)` and the
+    /// type of the body.  The body must be pure.
+    fn closure1(&self, c: &Expr, arg: &Ty, env: &Env) -> R<(String, Ty)> {
+        let cl = match c {
+            Expr::Closure(cl) => cl,
+            _ => return self.err(c, "untranslatable: a function value that is not a closure literal"),
+        };
+        if cl.inputs.len() != 1 {
+            return self.err(c, "untranslatable: closure with several parameters");
+        }
+        let x = self.tmp(env);
+        let (env2, pre) = self.bind_pat(&cl.inputs[0], val(x.clone(), arg.clone()), env)?;
+        if contains_return(&cl.body) {
+            return self.err(c, "untranslatable: `return` inside a closure");
+        }
+        let muts = self.mutated_outer(&cl.body, &env2)?;
+        if !muts.is_empty() {
+            return self.err(c, format!("untranslatable: closure assigning to `{}`", muts[0]));
+        }
+        let b = self.expr(&cl.body, &env2, None)?;
+        Ok((format!("(fun {} => {}{})", x, pre, b.t), b.ty))
+    }
+
+    fn panic_default(&self, t: &Ty) -> Option<String> {
+        let key = match t {
+            Ty::F64 => "f64".to_string(),
+            Ty::Named(n) => n.clone(),
+            _ => return None,
+        };
+        self.ctx.panic_defaults.get(&key).cloned()
+    }
+
+    fn is_builtin_list(&self, recv: &Expr, env: &Env) -> bool {
+        matches!(self.expr(recv, env, None).map(|v| v.ty), Ok(Ty::List(_)))
+    }
+
+    /// Evaluate `e` where side effects are allowed (statement level): a call with `&mut` arguments is
+    /// bound first, the places behind those arguments are rebound, and the value goes to `k`.
+    fn eval_k(&self, e: &Expr, env: &Env, exp: Option<&Ty>, k: &K) -> R<String> {
+        let e0 = strip_parens(e);
+        if contains_return(e0) {
+            return self.expr_k(e, env, exp, k);
+        }
+        match e0 {
+            Expr::MethodCall(mc) if mc.method == "take" && mc.args.is_empty() => {
+                let cur = self.expr(&mc.receiver, env, None)?;
+                if let Ty::Opt(_) = &cur.ty {
+                    let t = self.tmp(env);
+                    let (name, whole) = self.update_place(&mc.receiver, "None".into(), env)?;
+                    let r = k(val(t.clone(), cur.ty.clone()))?;
+                    return Ok(format!("let {} := {} in\n  let {} := {} in\n  {}", t, cur.t, name, whole, r));
+                }
+                self.err(e, "untranslatable: `take` on a non-option")
+            }
+            Expr::Call(c) if norm_tokens(&*c.func).ends_with("verif::tick") => k(val("tt".into(), Ty::Unit)),
+            Expr::Call(_) | Expr::MethodCall(_) => {
+                self.allow_mut.set(true);
+                *self.mut_places.borrow_mut() = None;
+                let v = self.expr(e0, env, exp);
+                self.allow_mut.set(false);
+                let v = v?;
+                let places = self.mut_places.borrow_mut().take();
+                let places = match places {
+                    Some(p) => p,
+                    None => return k(v),
+                };
+                // v.ty = (result?, state_1, ..., state_n)
+                let comps: Vec<Ty> = match &v.ty {
+                    Ty::Tuple(ts) if ts.len() == places.len() + 1 || (ts.len() == places.len() && places.len() > 1) => ts.clone(),
+                    t => vec![t.clone()],
+                };
+                let has_res = comps.len() == places.len() + 1;
+                let names: Vec<String> = comps.iter().map(|_| self.tmp(env)).collect();
+                let mut out = if names.len() == 1 { format!("let {} := {} in\n  ", names[0], v.t) } else { format!("let '({}) := {} in\n  ", names.join(", "), v.t) };
+                for (j, pl) in places.iter().enumerate() {
+                    let idx = if has_res { j + 1 } else { j };
+                    let (name, whole) = self.update_place(pl, names[idx].clone(), env)?;
+                    out.push_str(&format!("let {} := {} in\n  ", name, whole));
+                }
+                let r = if has_res { k(val(names[0].clone(), comps[0].clone()))? } else { k(val("tt".into(), Ty::Unit))? };
+                Ok(format!("{}{}", out, r))
+            }
+            _ => self.expr_k(e, env, exp, k),
+        }
+    }
+
+    /// `match v with | pat_i => arm_i(env_i)`
+    fn match_on<S: syn::spanned::Spanned>(&self, at: &S, v: Val, env: &Env, arms: Vec<(Pat, Box<dyn Fn(&Env) -> R<String> + '_>)>) -> R<String> {
+        let variants = match v.ty.strip_into().clone() {
+            Ty::Named(tn) => match &self.ctx.types[&tn].kind {
+                TypeKind::Enum { variants } => (tn.clone(), variants.clone()),
+                _ => return self.err(at, format!("untranslatable: refutable pattern on non-enum {}", tn)),
+            },
+            Ty::Opt(inner) => ("Option".to_string(), vec![("Some".to_string(), "Some".to_string(), vec![(*inner).clone()]), ("None".to_string(), "None".to_string(), vec![])]),
+            t => return self.err(at, format!("untranslatable: refutable pattern on type {}", t.show())),
+        };
+        let mut out = Vec::new();
+        for (pat, body) in &arms {
+            let (ps, env2, pre) = self.variant_pat(pat, &variants.1, &variants.0, env)?;
+            let b = body(&env2)?;
+            out.push(format!("| {} => {}{}", ps, pre, b));
+        }
+        Ok(format!("(match {} with\n  {}\n  end)", v.t, out.join("\n  ")))
+    }
+
+    /// `if` whose condition may be a `let` pattern test
+    fn if_k(&self, i: &syn::ExprIf, env: &Env, then_k: &dyn Fn(&Env) -> R<String>, else_k: &dyn Fn(&Env) -> R<String>, stmt_level: bool) -> R<String> {
+        if let Expr::Let(l) = &*i.cond {
+            let pat = (*l.pat).clone();
+            let cont = |v: Val| -> R<String> {
+                let arms: Vec<(Pat, Box<dyn Fn(&Env) -> R<String> + '_>)> = vec![(pat.clone(), Box::new(|e2: &Env| then_k(e2))), (syn::parse_quote!(_), Box::new(|e2: &Env| else_k(e2)))];
+                self.match_on(i, v, env, arms)
+            };
+            return if stmt_level { self.eval_k(&l.expr, env, None, &cont) } else { cont(self.expr(&l.expr, env, None)?) };
+        }
+        let c = self.expr(&i.cond, env, Some(&Ty::Bool))?;
+        self.check_ty(&c.ty, &Ty::Bool, "condition")?;
+        let a = then_k(env)?;
+        let b = else_k(env)?;
+        Ok(format!("(if {} then\n  {}\n  else\n  {})", c.t, a, b))
+    }
+
     /// Like `expr_k`, for statement-position `if`/`match`/block: a missing `else` falls through.
     fn expr_k_stmt(&self, e: &Expr, env: &Env, k: &K) -> R<String> {
         match e {
-            Expr::If(i) => {
-                if matches!(&*i.cond, Expr::Let(_)) {
-                    return self.err(e, "untranslatable: `if let`");
-                }
-                let c = self.expr(&i.cond, env, Some(&Ty::Bool))?;
-                self.check_ty(&c.ty, &Ty::Bool, "condition")?;
-                let a = self.block(&i.then_branch.stmts, env, None, k)?;
-                let b = match &i.else_branch {
-                    Some((_, eb)) => self.expr_k_stmt(eb, env, k)?,
-                    None => k(val("tt".into(), Ty::Unit))?,
-                };
-                Ok(format!("(if {} then\n  {}\n  else\n  {})", c.t, a, b))
-            }
+            Expr::If(i) => self.if_k(
+                i,
+                env,
+                &|e2: &Env| self.block(&i.then_branch.stmts, e2, None, k),
+                &|e2: &Env| match &i.else_branch {
+                    Some((_, eb)) => self.expr_k_stmt(eb, e2, k),
+                    None => k(val("tt".into(), Ty::Unit)),
+                },
+                true,
+            ),
             Expr::Block(b) => self.block(&b.block.stmts, env, None, k),
             Expr::Match(m) => self.match_k(m, env, None, k),
             _ => self.err(e, "untranslatable: statement form"),
@@ -373,25 +719,24 @@ impl<'a> Tr<'a> {
         }
         match e {
             Expr::Return(r) => match &r.expr {
-                Some(x) => {
-                    let v = self.expr(x, env, Some(&self.f.ret))?;
-                    self.finish(v)
-                }
-                None => self.err(e, "untranslatable: `return` without value"),
+                Some(x) => self.eval_k(x, env, Some(&self.f.ret), &|v: Val| self.finish(v)),
+                None => self.finish(val("tt".into(), Ty::Unit)),
             },
             Expr::Paren(p) => self.expr_k(&p.expr, env, exp, k),
             Expr::If(i) => {
                 if contains_return(&i.cond) {
                     return self.err(e, "untranslatable: `return` inside a condition");
                 }
-                let c = self.expr(&i.cond, env, Some(&Ty::Bool))?;
-                self.check_ty(&c.ty, &Ty::Bool, "condition")?;
-                let a = self.block(&i.then_branch.stmts, env, exp, k)?;
-                let b = match &i.else_branch {
-                    Some((_, eb)) => self.expr_k(eb, env, exp, k)?,
-                    None => k(val("tt".into(), Ty::Unit))?,
-                };
-                Ok(format!("(if {} then\n  {}\n  else\n  {})", c.t, a, b))
+                self.if_k(
+                    i,
+                    env,
+                    &|e2: &Env| self.block(&i.then_branch.stmts, e2, exp, k),
+                    &|e2: &Env| match &i.else_branch {
+                        Some((_, eb)) => self.expr_k(eb, e2, exp, k),
+                        None => k(val("tt".into(), Ty::Unit)),
+                    },
+                    true,
+                )
             }
             Expr::Block(b) => self.block(&b.block.stmts, env, exp, k),
             Expr::Match(m) => self.match_k(m, env, exp, k),
@@ -419,7 +764,7 @@ impl<'a> Tr<'a> {
             }
             Pat::Wild(_) => Ok((env.clone(), String::new())),
             Pat::Type(pt) => {
-                let ann = self.ctx.ty_of(&pt.ty, self.f.self_ty.as_ref(), None, &Generics { into: Default::default() });
+                let ann = self.ctx.ty_of(&pt.ty, self.f.self_ty.as_ref(), None, &self.generics());
                 self.check_ty(&v.ty, &ann, "annotated binding")?;
                 let ty = if v.ty == Ty::Unknown || matches!(v.ty, Ty::List(ref t) if **t == Ty::Unknown) { ann } else { v.ty.clone() };
                 self.bind_pat(&pt.pat, Val { t: v.t, ty, t2: v.t2 }, env)
@@ -527,6 +872,7 @@ impl<'a> Tr<'a> {
     /// `place := newval`: returns (coq variable to rebind, its new value).
     fn update_place(&self, place: &Expr, newval: String, env: &Env) -> R<(String, String)> {
         match place {
+            Expr::Reference(r) => self.update_place(&r.expr, newval, env),
             Expr::Path(_) | Expr::Paren(_) | Expr::Unary(_) => match self.place_var(place, env) {
                 Some((_, c, ty)) => {
                     if ty == Ty::Range {
@@ -540,6 +886,8 @@ impl<'a> Tr<'a> {
                 let base = self.expr(&f.base, env, None)?;
                 let tn = match &base.ty {
                     Ty::Named(n) => n.clone(),
+                    // `.0` of a transparent newtype over a list
+                    Ty::List(_) if matches!(&f.member, syn::Member::Unnamed(u) if u.index == 0) => return self.update_place(&f.base, newval, env),
                     t => return self.err(place, format!("untranslatable: field assignment on type {}", t.show())),
                 };
                 let fname = match &f.member {
@@ -597,7 +945,7 @@ impl<'a> Tr<'a> {
     fn mutated_outer(&self, e: &Expr, env: &Env) -> R<Vec<String>> {
         let mut assigned = Vec::new();
         let mut declared = Vec::new();
-        collect_mut(e, &mut assigned, &mut declared);
+        collect_mut(e, &mut assigned, &mut declared, self.mut_methods);
         let mut out: Vec<String> = Vec::new();
         for a in assigned {
             if env.get(&a).is_some() {
@@ -660,7 +1008,19 @@ impl<'a> Tr<'a> {
                     BinOp::And(_) | BinOp::Or(_) => (self.expr(&b.left, env, Some(&Ty::Bool))?, self.expr(&b.right, env, Some(&Ty::Bool))?),
                     _ => {
                         let l = self.expr(&b.left, env, None)?;
-                        let hint = if matches!(l.ty, Ty::F64 | Ty::Int | Ty::Bool) { Some(l.ty.clone()) } else { None };
+                        let hint = if matches!(l.ty, Ty::F64 | Ty::Int | Ty::Nat | Ty::Bool) { Some(l.ty.clone()) } else { None };
+                        // `x == Enum::Variant` on a fieldless variant: a match (the derived PartialEq)
+                        if let (BinOp::Eq(_) | BinOp::Ne(_), Ty::Named(tn)) = (&b.op, l.ty.strip_into()) {
+                            if let TypeKind::Enum { variants } = &self.ctx.types[tn].kind {
+                                if let Expr::Path(pp) = strip_parens(&b.right) {
+                                    let last = pp.path.segments.last().unwrap().ident.to_string();
+                                    if let Some(v) = variants.iter().find(|v| v.0 == last && v.2.is_empty()) {
+                                        let t = format!("(match {} with {} => true | _ => false end)", l.t, v.1);
+                                        return Ok(val(if matches!(b.op, BinOp::Ne(_)) { format!("(negb {})", t) } else { t }, Ty::Bool));
+                                    }
+                                }
+                            }
+                        }
                         let r = self.expr(&b.right, env, hint.as_ref())?;
                         (l, r)
                     }
@@ -674,7 +1034,11 @@ impl<'a> Tr<'a> {
                     (Ty::Named(tn), syn::Member::Named(id)) => match &self.ctx.types[tn].kind {
                         TypeKind::Record { fields, .. } => match fields.iter().find(|x| id == x.0.as_str()) {
                             Some((_, proj, fty)) => Ok(val(format!("({} {})", proj, base.t), fty.clone())),
-                            None => self.err(e, format!("field `{}` of {} is not in the spec", id, tn)),
+                            None => match self.ctx.types[tn].ambient.iter().find(|x| id == x.0.as_str()) {
+                                // a field that never changes: a parameter of the whole development of this type
+                                Some((_, term, fty)) => Ok(val(term.clone(), fty.clone())),
+                                None => self.err(e, format!("field `{}` of {} is not in the spec", id, tn)),
+                            },
                         },
                         _ => self.err(e, format!("untranslatable: field `{}` of non-record {}", id, tn)),
                     },
@@ -682,6 +1046,7 @@ impl<'a> Tr<'a> {
                         TypeKind::ArrayNewtype { .. } => Ok(val(base.t, Ty::ArrayOf(tn.clone()))),
                         _ => self.err(e, format!("untranslatable: `.0` on {}", tn)),
                     },
+                    (Ty::List(_), syn::Member::Unnamed(ix)) if ix.index == 0 => Ok(base),
                     (Ty::Range, syn::Member::Named(id)) if id == "start" => Ok(val(base.t, Ty::F64)),
                     (Ty::Range, syn::Member::Named(id)) if id == "end" => Ok(val(base.t2.clone().unwrap_or_default(), Ty::F64)),
                     (Ty::Tuple(ts), syn::Member::Unnamed(ix)) => {
@@ -715,6 +1080,17 @@ impl<'a> Tr<'a> {
                         }
                         self.err(e, "index out of range")
                     }
+                    Ty::List(elt) => {
+                        let i = self.expr(&ix.index, env, Some(&Ty::Nat))?;
+                        if i.ty != Ty::Nat {
+                            return self.err(e, format!("untranslatable: list index of type {} (only `usize` mapped to nat)", i.ty.show()));
+                        }
+                        // out of range is a panic in Rust; the default stands for it (as in the hand models)
+                        match self.panic_default(elt) {
+                            Some(d) => Ok(val(format!("(nth {} {} {})", i.t, base.t, d), (**elt).clone())),
+                            None => self.err(e, format!("untranslatable: indexing a list of {} (no panic default in the spec)", elt.show())),
+                        }
+                    }
                     t => self.err(e, format!("untranslatable: indexing a value of type {}", t.show())),
                 }
             }
@@ -737,6 +1113,9 @@ impl<'a> Tr<'a> {
                     return self.err(e, "untranslatable: struct update syntax");
                 }
                 let tn = self.resolve_type_path(&s.path)?;
+                if self.ctx.types[&tn].partial || !self.ctx.types[&tn].ambient.is_empty() {
+                    return self.err(e, format!("untranslatable: struct literal of {} (only part of it is in the Coq record)", tn));
+                }
                 match &self.ctx.types[&tn].kind {
                     TypeKind::Record { ctor, fields } => {
                         let mut args = Vec::new();
@@ -790,11 +1169,13 @@ impl<'a> Tr<'a> {
             Expr::MethodCall(mc) => self.method_call(e, mc, env, exp),
             Expr::Cast(c) => {
                 let v = self.expr(&c.expr, env, None)?;
-                let to = self.ctx.ty_of(&c.ty, self.f.self_ty.as_ref(), None, &Generics { into: Default::default() });
+                let to = self.ctx.ty_of(&c.ty, self.f.self_ty.as_ref(), None, &self.generics());
                 match (&v.ty, &to) {
                     (Ty::F64, Ty::F64) | (Ty::Int, Ty::Int) => Ok(v),
                     // exact for the small integers this is used on (signs, counters)
                     (Ty::Int, Ty::F64) => Ok(val(format!("(fofZ {})", v.t), Ty::F64)),
+                    // `x as usize` (saturating, NaN -> 0): the Scalar operation of that name
+                    (Ty::F64, Ty::Int) if norm_tokens(&*c.ty) == "usize" => Ok(val(format!("(fto_usize {})", v.t), Ty::Int)),
                     (a, b) => self.err(e, format!("untranslatable: cast from {} to {}", a.show(), b.show())),
                 }
             }
@@ -802,7 +1183,26 @@ impl<'a> Tr<'a> {
             Expr::Closure(_) => self.err(e, "untranslatable: closure"),
             Expr::Macro(m) => self.err(e, format!("untranslatable: macro {}!", norm_tokens(&m.mac.path))),
             Expr::ForLoop(_) | Expr::While(_) | Expr::Loop(_) => self.err(e, "untranslatable: loop"),
-            Expr::Array(_) => self.err(e, "untranslatable: array literal outside a coefficient constructor"),
+            Expr::Array(a) => {
+                // a literal array used as a sequence (e.g. `for x in [false, true]`)
+                let hint = match exp {
+                    Some(Ty::List(t)) => Some((**t).clone()),
+                    _ => None,
+                };
+                let mut ts = Vec::new();
+                let mut ety = hint.clone().unwrap_or(Ty::Unknown);
+                for x in &a.elems {
+                    let v = self.expr(x, env, hint.as_ref())?;
+                    if !self.compatible(&v.ty, &ety) {
+                        return self.err(e, "untranslatable: array literal with elements of different types");
+                    }
+                    if ety == Ty::Unknown {
+                        ety = v.ty.strip_into().clone();
+                    }
+                    ts.push(v.t);
+                }
+                Ok(val(format!("[{}]", ts.join("; ")), Ty::List(Box::new(ety))))
+            }
             Expr::Assign(_) => self.err(e, "untranslatable: assignment in expression position"),
             Expr::Let(_) => self.err(e, "untranslatable: `let` condition"),
             Expr::Try(_) => self.err(e, "untranslatable: `?`"),
@@ -826,21 +1226,20 @@ impl<'a> Tr<'a> {
         };
         let s = match e {
             Expr::If(i) => {
-                if matches!(&*i.cond, Expr::Let(_)) {
-                    return self.err(e, "untranslatable: `if let`");
+                if i.else_branch.is_none() {
+                    return self.err(e, "untranslatable: `if` without `else` used as a value");
                 }
-                let c = self.expr(&i.cond, env, Some(&Ty::Bool))?;
-                self.check_ty(&c.ty, &Ty::Bool, "condition")?;
-                let a = self.block_pure(&i.then_branch.stmts, env, exp_owned.as_ref(), &k)?;
-                let b = match &i.else_branch {
-                    Some((_, eb)) => {
+                self.if_k(
+                    i,
+                    env,
+                    &|e2: &Env| self.block_pure(&i.then_branch.stmts, e2, exp_owned.as_ref(), &k),
+                    &|e2: &Env| {
                         let cur = ty_cell.borrow().clone();
-                        let v = self.expr(eb, env, Some(&cur))?;
-                        k(v)?
-                    }
-                    None => return self.err(e, "untranslatable: `if` without `else` used as a value"),
-                };
-                format!("(if {} then {} else {})", c.t, a, b)
+                        let v = self.expr(&i.else_branch.as_ref().unwrap().1, e2, Some(&cur))?;
+                        k(v)
+                    },
+                    false,
+                )?
             }
             Expr::Block(b) => format!("({})", self.block_pure(&b.block.stmts, env, exp_owned.as_ref(), &k)?),
             Expr::Unsafe(_) => return self.err(e, "untranslatable: unsafe block"),
@@ -869,7 +1268,7 @@ impl<'a> Tr<'a> {
                         return self.err(arm, "untranslatable: match guard");
                     }
                     let (pat_s, env2, pre) = self.variant_pat(&arm.pat, &variants, &tn, env)?;
-                    let body = self.expr_k(&arm.body, &env2, exp, k)?;
+                    let body = self.block(&[Stmt::Expr((*arm.body).clone(), None)], &env2, exp, k)?;
                     arms.push(format!("| {} => {}{}", pat_s, pre, body));
                 }
             }
@@ -880,7 +1279,7 @@ impl<'a> Tr<'a> {
                         return self.err(arm, "untranslatable: match guard");
                     }
                     let (pat_s, env2, pre) = self.variant_pat(&arm.pat, &variants, "Option", env)?;
-                    let body = self.expr_k(&arm.body, &env2, exp, k)?;
+                    let body = self.block(&[Stmt::Expr((*arm.body).clone(), None)], &env2, exp, k)?;
                     arms.push(format!("| {} => {}{}", pat_s, pre, body));
                 }
             }
@@ -908,7 +1307,7 @@ impl<'a> Tr<'a> {
                     let (env2, c) = self.bind(env, &pi.ident.to_string(), t.clone());
                     let gv = self.expr(g, &env2, Some(&Ty::Bool))?;
                     self.check_ty(&gv.ty, &Ty::Bool, "match guard")?;
-                    let body = self.expr_k(&arm.body, &env2, exp, k)?;
+                    let body = self.block(&[Stmt::Expr((*arm.body).clone(), None)], &env2, exp, k)?;
                     // the binding scopes over guard and body only
                     out.push_str(&format!("(if (let {} := {} in {}) then (let {} := {} in {}) else ", c, scrut.t, gv.t, c, scrut.t, body));
                     closes += 1;
@@ -1000,8 +1399,13 @@ impl<'a> Tr<'a> {
                     let s = lit::float_literal(i.base10_digits(), neg).map_err(|m| format!("{} at {}:{}", m, self.file, line_of(at)))?;
                     return Ok(val(s, Ty::F64));
                 }
-                let _ = exp;
                 let d = i.base10_digits();
+                if let Some(Ty::Nat) = exp {
+                    if neg {
+                        return self.err(at, "negative literal of type usize");
+                    }
+                    return Ok(val(format!("({})%nat", d), Ty::Nat));
+                }
                 Ok(val(if neg { format!("(-{})%Z", d) } else { format!("({})%Z", d) }, Ty::Int))
             }
             syn::Lit::Bool(b) => {
@@ -1041,6 +1445,25 @@ impl<'a> Tr<'a> {
                 BinOp::Eq(_) => Ok(val(format!("(Bool.eqb {} {})", l.t, r.t), Ty::Bool)),
                 _ => self.err(at, "untranslatable: operator on bool"),
             },
+            (Ty::Nat, Ty::Nat) => {
+                let f = |name: &str, ty: Ty| -> R<Val> { Ok(val(format!("({} {} {})", name, l.t, r.t), ty)) };
+                match op {
+                    // x + 1 is the successor (what the models write); otherwise Nat.add
+                    BinOp::Add(_) | BinOp::AddAssign(_) if r.t == "(1)%nat" => Ok(val(format!("(S {})", l.t), Ty::Nat)),
+                    BinOp::Add(_) | BinOp::AddAssign(_) => f("Nat.add", Ty::Nat),
+                    // usize subtraction panics on underflow in debug builds and wraps in release builds; truncated here
+                    BinOp::Sub(_) | BinOp::SubAssign(_) => f("Nat.sub", Ty::Nat),
+                    BinOp::Mul(_) | BinOp::MulAssign(_) => f("Nat.mul", Ty::Nat),
+                    BinOp::Rem(_) | BinOp::RemAssign(_) => f("Nat.modulo", Ty::Nat),
+                    BinOp::Lt(_) => f("Nat.ltb", Ty::Bool),
+                    BinOp::Le(_) => f("Nat.leb", Ty::Bool),
+                    BinOp::Gt(_) => Ok(val(format!("(Nat.ltb {} {})", r.t, l.t), Ty::Bool)),
+                    BinOp::Ge(_) => Ok(val(format!("(Nat.leb {} {})", r.t, l.t), Ty::Bool)),
+                    BinOp::Eq(_) => f("Nat.eqb", Ty::Bool),
+                    BinOp::Ne(_) => Ok(val(format!("(negb (Nat.eqb {} {}))", l.t, r.t), Ty::Bool)),
+                    _ => self.err(at, "untranslatable: operator on usize"),
+                }
+            }
             (Ty::Int, Ty::Int) => {
                 let f = |name: &str, ty: Ty| -> R<Val> { Ok(val(format!("({} {} {})", name, l.t, r.t), ty)) };
                 match op {
@@ -1130,6 +1553,12 @@ impl<'a> Tr<'a> {
         let mut ts = Vec::new();
         for (a, p) in args.iter().zip(f.params.iter()) {
             if p.ty == Ty::Range {
+                if a.ty == Ty::Tuple(vec![Ty::F64, Ty::F64]) {
+                    // a stored range (pair)
+                    ts.push(format!("(fst {})", a.t));
+                    ts.push(format!("(snd {})", a.t));
+                    continue;
+                }
                 if a.ty != Ty::Range {
                     return self.err(at, format!("argument `{}` of {}: expected a range", p.name, f.label));
                 }
@@ -1160,8 +1589,71 @@ impl<'a> Tr<'a> {
             }
             return self.err(at, format!("untranslatable: call of identity constructor {} with a non-literal array", f.label));
         }
+        let cur = self.cur_call.borrow_mut().take();
+        if !f.mut_params.is_empty() {
+            match cur {
+                Some((true, exprs)) if exprs.len() == f.params.len() => {
+                    let places: Vec<Expr> = f.mut_params.iter().map(|&j| exprs[j].clone()).collect();
+                    *self.mut_places.borrow_mut() = Some(places);
+                }
+                _ => return self.err(at, format!("untranslatable: call of {} (it has `&mut` parameters) inside an expression", f.label)),
+            }
+        }
+        // per-parameter argument text (a range takes two slots)
+        let mut per_param: Vec<String> = Vec::new();
+        {
+            let mut it = ts.iter();
+            for p in &f.params {
+                if p.ty == Ty::Range {
+                    let a = it.next().cloned().unwrap_or_default();
+                    let b = it.next().cloned().unwrap_or_default();
+                    per_param.push(format!("{} {}", a, b));
+                } else {
+                    per_param.push(it.next().cloned().unwrap_or_default());
+                }
+            }
+        }
+        let template = f.call.clone().or_else(|| if f.model.is_some() { f.model_app.clone() } else { None });
+        if let Some(tpl) = template {
+            let mut t = tpl;
+            for (j, a) in per_param.iter().enumerate().rev() {
+                t = t.replace(&format!("${}", j), a);
+            }
+            self.check_ambient_use(at, &t, f)?;
+            return Ok(val(format!("({})", t), f.ret_full()));
+        }
         let head = self.head_of(i);
-        Ok(val(format!("({} {})", head, ts.join(" ")), f.ret.clone()))
+        let mut amb: Vec<String> = Vec::new();
+        if f.model.is_none() {
+            // a generated callee takes the ambient binders of its state types first
+            for p in &f.params {
+                if let Ty::Named(n) = p.ty.strip_into() {
+                    for b in &self.ctx.types[n].ambient_binders {
+                        if !amb.contains(&b.0) {
+                            if !self.ambient.borrow().iter().any(|x| x.0 == b.0) {
+                                return self.err(at, format!("untranslatable: call of {} needs the ambient `{}` which is not in scope", f.label, b.0));
+                            }
+                            amb.push(b.0.clone());
+                        }
+                    }
+                }
+            }
+        }
+        amb.extend(ts);
+        Ok(val(format!("({} {})", head, amb.join(" ")), f.ret_full()))
+    }
+
+    /// a call template may mention ambient binders (`dashes_`, `init_`, ...): they must be in scope
+    fn check_ambient_use(&self, at: &Expr, t: &str, f: &FnInfo) -> R<()> {
+        for (_, ti) in self.ctx.types.iter() {
+            for b in &ti.ambient_binders {
+                let used = t.split(|c: char| !(c.is_alphanumeric() || c == '_')).any(|w| w == b.0);
+                if used && !self.ambient.borrow().iter().any(|x| x.0 == b.0) {
+                    return self.err(at, format!("untranslatable: call of {} needs the ambient `{}` which is not in scope", f.label, b.0));
+                }
+            }
+        }
+        Ok(())
     }
 
     fn head_of(&self, i: usize) -> String {
@@ -1310,7 +1802,9 @@ impl<'a> Tr<'a> {
             let cands = self.ctx.lookup("", n);
             let cands: Vec<usize> = cands.into_iter().filter(|&i| !self.ctx.fns[i].is_const).collect();
             if cands.len() == 1 {
+                let permitted = self.allow_mut.replace(false);
                 let args = self.args_for(cands[0], None, &c.args, env, e)?;
+                *self.cur_call.borrow_mut() = Some((permitted, c.args.iter().cloned().collect()));
                 return self.emit_call(e, cands[0], args);
             }
             return self.err(e, format!("untranslatable: call of `{}` (not in the spec)", n));
@@ -1342,7 +1836,7 @@ impl<'a> Tr<'a> {
                     }
                 }
             }
-            if tn == "ArrayVec" && segs[1] == "new" && c.args.is_empty() {
+            if (tn == "ArrayVec" || tn == "Vec") && (segs[1] == "new" || segs[1] == "default") && c.args.is_empty() {
                 let ty = match exp {
                     Some(Ty::List(t)) => Ty::List(t.clone()),
                     _ => Ty::List(Box::new(Ty::Unknown)),
@@ -1351,7 +1845,9 @@ impl<'a> Tr<'a> {
             }
             let cands: Vec<usize> = self.ctx.lookup(&tn, &segs[1]).into_iter().filter(|&i| !self.ctx.fns[i].is_const).collect();
             if let Some(i) = self.pick(&cands) {
+                let permitted = self.allow_mut.replace(false);
                 let args = self.args_for(i, None, &c.args, env, e)?;
+                *self.cur_call.borrow_mut() = Some((permitted, c.args.iter().cloned().collect()));
                 return self.emit_call(e, i, args);
             }
             return self.err(e, format!("untranslatable: call of `{}::{}` (not in the spec)", tn, segs[1]));
@@ -1394,7 +1890,30 @@ impl<'a> Tr<'a> {
 
     fn method_call(&self, e: &Expr, mc: &syn::ExprMethodCall, env: &Env, exp: Option<&Ty>) -> R<Val> {
         let m = mc.method.to_string();
+        let permitted = self.allow_mut.replace(false);
+        // `(a..=b).contains(&x)` / `(a..b).contains(&x)` on f64
+        if m == "contains" && mc.args.len() == 1 {
+            if let Expr::Range(r) = strip_parens(&mc.receiver) {
+                if let (Some(a), Some(b)) = (&r.start, &r.end) {
+                    let a = self.expr(a, env, Some(&Ty::F64))?;
+                    let b = self.expr(b, env, Some(&Ty::F64))?;
+                    let x = self.expr(&mc.args[0], env, Some(&Ty::F64))?;
+                    if a.ty == Ty::F64 && b.ty == Ty::F64 && x.ty == Ty::F64 {
+                        let hi = if matches!(r.limits, syn::RangeLimits::Closed(_)) { "<=?" } else { "<?" };
+                        return Ok(val(format!("(({} <=? {}) && ({} {} {}))", a.t, x.t, x.t, hi, b.t), Ty::Bool));
+                    }
+                }
+                return self.err(e, "untranslatable: `contains` on this range");
+            }
+        }
         let recv = self.expr(&mc.receiver, env, None)?;
+        let spec_call = |i: usize, recv: Val| -> R<Val> {
+            let args = self.args_for(i, Some(recv), &mc.args, env, e)?;
+            let mut exprs: Vec<Expr> = vec![(*mc.receiver).clone()];
+            exprs.extend(mc.args.iter().cloned());
+            *self.cur_call.borrow_mut() = Some((permitted, exprs));
+            self.emit_call(e, i, args)
+        };
         // `.into()`
         if m == "into" && mc.args.is_empty() {
             return match &recv.ty {
@@ -1429,10 +1948,7 @@ impl<'a> Tr<'a> {
             Ty::Named(tn) => {
                 let cands: Vec<usize> = self.ctx.lookup(tn, &m).into_iter().filter(|&i| !self.ctx.fns[i].is_const && self.ctx.fns[i].has_self).collect();
                 match self.pick(&cands) {
-                    Some(i) => {
-                        let args = self.args_for(i, Some(recv), &mc.args, env, e)?;
-                        self.emit_call(e, i, args)
-                    }
+                    Some(i) => spec_call(i, recv),
                     None => self.err(e, format!("untranslatable: method `{}::{}` (not in the spec{})", tn, m, if cands.len() > 1 { ", ambiguous" } else { "" })),
                 }
             }
@@ -1440,18 +1956,111 @@ impl<'a> Tr<'a> {
                 // kurbo's own extension methods on f64 come from the spec
                 let cands: Vec<usize> = self.ctx.lookup("f64", &m).into_iter().filter(|&i| self.ctx.fns[i].has_self).collect();
                 if let Some(i) = self.pick(&cands) {
-                    let args = self.args_for(i, Some(recv), &mc.args, env, e)?;
-                    return self.emit_call(e, i, args);
+                    return spec_call(i, recv);
                 }
                 self.f64_method(e, &m, recv, mc, env)
             }
-            Ty::List(_) | Ty::Opt(_) | Ty::Bool | Ty::Int | Ty::Tuple(_) => {
+            Ty::List(elt) => {
+                // methods of a transparent newtype over this list type (BezPath over Vec<PathEl>)
+                for (tn, ti) in self.ctx.types.iter() {
+                    if let TypeKind::Transparent(inner) = &ti.kind {
+                        if *inner == rty {
+                            let cands: Vec<usize> = self.ctx.lookup(tn, &m).into_iter().filter(|&i| !self.ctx.fns[i].is_const && self.ctx.fns[i].has_self).collect();
+                            if let Some(i) = self.pick(&cands) {
+                                return spec_call(i, recv);
+                            }
+                        }
+                    }
+                }
+                let n = mc.args.len();
+                match (m.as_str(), n) {
+                    // the same elements in the same order (capacities are not modelled)
+                    ("clone", 0) | ("iter", 0) | ("into_iter", 0) | ("copied", 0) | ("cloned", 0) | ("collect", 0) | ("elements", 0) | ("as_slice", 0) | ("to_vec", 0) => Ok(recv),
+                    ("is_empty", 0) => Ok(val(format!("(match {} with [] => true | _ => false end)", recv.t), Ty::Bool)),
+                    ("len", 0) => Ok(val(format!("(length {})", recv.t), Ty::Nat)),
+                    ("get", 1) => {
+                        let i = self.expr(&mc.args[0], env, Some(&Ty::Nat))?;
+                        if i.ty != Ty::Nat {
+                            return self.err(e, format!("untranslatable: list index of type {} (only `usize` mapped to nat)", i.ty.show()));
+                        }
+                        Ok(val(format!("(nth_error {} {})", recv.t, i.t), Ty::Opt(elt.clone())))
+                    }
+                    ("first", 0) => Ok(val(format!("(hd_error {})", recv.t), Ty::Opt(elt.clone()))),
+                    ("rev", 0) => Ok(val(format!("(rev {})", recv.t), rty.clone())),
+                    ("chain", 1) => {
+                        let o = self.expr(&mc.args[0], env, Some(&rty))?;
+                        match o.ty.clone() {
+                            Ty::List(_) => Ok(val(format!("({} ++ {})", recv.t, o.t), rty.clone())),
+                            // `.chain(Some(x))`: one more element
+                            Ty::Opt(_) => Ok(val(format!("({} ++ match {} with Some tr_x => [tr_x] | None => [] end)", recv.t, o.t), rty.clone())),
+                            t => self.err(e, format!("untranslatable: `chain` with a value of type {}", t.show())),
+                        }
+                    }
+                    ("map", 1) | ("filter", 1) | ("find_map", 1) | ("any", 1) | ("all", 1) | ("flat_map", 1) => {
+                        let (f, rt) = self.closure1(&mc.args[0], elt, env)?;
+                        match m.as_str() {
+                            "map" => Ok(val(format!("(map {} {})", f, recv.t), Ty::List(Box::new(rt)))),
+                            "filter" if rt == Ty::Bool => Ok(val(format!("(filter {} {})", f, recv.t), rty.clone())),
+                            "any" if rt == Ty::Bool => Ok(val(format!("(existsb {} {})", f, recv.t), Ty::Bool)),
+                            "all" if rt == Ty::Bool => Ok(val(format!("(forallb {} {})", f, recv.t), Ty::Bool)),
+                            "flat_map" => match rt {
+                                Ty::List(_) => Ok(val(format!("(flat_map {} {})", f, recv.t), rt)),
+                                t => self.err(e, format!("untranslatable: `flat_map` with a closure returning {}", t.show())),
+                            },
+                            "find_map" => match rt {
+                                Ty::Opt(_) => Ok(val(format!("(tr_find_map {} {})", f, recv.t), rt)),
+                                t => self.err(e, format!("untranslatable: `find_map` with a closure returning {}", t.show())),
+                            },
+                            _ => self.err(e, format!("untranslatable: `{}` with this closure", m)),
+                        }
+                    }
+                    ("sum", 0) => match &**elt {
+                        // Iterator::sum for integers starts from 0
+                        Ty::Int => Ok(val(format!("(fold_left Z.add {} 0%Z)", recv.t), Ty::Int)),
+                        t => self.err(e, format!("untranslatable: `sum` of {}", t.show())),
+                    },
+                    _ => self.err(e, format!("untranslatable: method `{}` on {}", m, rty.show())),
+                }
+            }
+            Ty::Opt(inner) => match (m.as_str(), mc.args.len()) {
+                ("clone", 0) | ("copied", 0) | ("cloned", 0) => Ok(recv),
+                ("is_some", 0) => Ok(val(format!("(match {} with Some _ => true | None => false end)", recv.t), Ty::Bool)),
+                ("is_none", 0) => Ok(val(format!("(match {} with Some _ => false | None => true end)", recv.t), Ty::Bool)),
+                ("map", 1) | ("filter", 1) | ("and_then", 1) => {
+                    let (f, rt) = self.closure1(&mc.args[0], inner, env)?;
+                    match m.as_str() {
+                        "map" => Ok(val(format!("(match {} with Some tr_x => Some ({} tr_x) | None => None end)", recv.t, f), Ty::Opt(Box::new(rt)))),
+                        "filter" if rt == Ty::Bool => Ok(val(format!("(match {} with Some tr_x => if {} tr_x then Some tr_x else None | None => None end)", recv.t, f), rty.clone())),
+                        "and_then" if matches!(rt, Ty::Opt(_)) => Ok(val(format!("(match {} with Some tr_x => {} tr_x | None => None end)", recv.t, f), rt)),
+                        _ => self.err(e, format!("untranslatable: `{}` with this closure", m)),
+                    }
+                }
+                ("unwrap", 0) if **inner == Ty::Unknown && exp.is_some() && self.panic_default(exp.unwrap()).is_some() => {
+                    // the payload type is only known from the context
+                    let d = self.panic_default(exp.unwrap()).unwrap();
+                    Ok(val(format!("(match {} with Some tr_x => tr_x | None => {} end)", recv.t, d), exp.unwrap().clone()))
+                }
+                ("unwrap", 0) => match self.panic_default(inner) {
+                    // `None` panics; the spec's default for the type stands for the panic, as in the hand models
+                    Some(d) => Ok(val(format!("(match {} with Some tr_x => tr_x | None => {} end)", recv.t, d), (**inner).clone())),
+                    None => self.err(e, format!("untranslatable: `unwrap` of an option of {} (no panic default in the spec)", inner.show())),
+                },
+                ("unwrap_or", 1) => {
+                    let d = self.expr(&mc.args[0], env, Some(inner))?;
+                    self.check_ty(&d.ty, inner, "default value")?;
+                    Ok(val(format!("(match {} with Some tr_x => tr_x | None => {} end)", recv.t, d.t), (**inner).clone()))
+                }
+                _ => self.err(e, format!("untranslatable: method `{}` on {}", m, rty.show())),
+            },
+            Ty::Bool | Ty::Int | Ty::Nat | Ty::Tuple(_) => {
                 if m == "clone" && mc.args.is_empty() {
                     return Ok(recv);
                 }
-                // `v.iter().copied().collect()`: the same elements in the same order (capacities are not modelled)
-                if matches!(rty, Ty::List(_)) && mc.args.is_empty() && matches!(m.as_str(), "iter" | "into_iter" | "copied" | "cloned" | "collect") {
-                    return Ok(recv);
+                if rty == Ty::Int && mc.args.len() == 1 && (m == "max" || m == "min") {
+                    let o = self.expr(&mc.args[0], env, Some(&Ty::Int))?;
+                    if o.ty == Ty::Int {
+                        return Ok(val(format!("(Z.{} {} {})", m, recv.t, o.t), Ty::Int));
+                    }
                 }
                 self.err(e, format!("untranslatable: method `{}` on {}", m, rty.show()))
             }
@@ -1507,6 +2116,14 @@ impl<'a> Tr<'a> {
     }
 }
 
+fn strip_parens(e: &Expr) -> &Expr {
+    match e {
+        Expr::Paren(p) => strip_parens(&p.expr),
+        Expr::Group(p) => strip_parens(&p.expr),
+        x => x,
+    }
+}
+
 fn strip_paren_lit(e: &Expr) -> &Expr {
     match e {
         Expr::Paren(p) => strip_paren_lit(&p.expr),
@@ -1539,19 +2156,48 @@ fn compound_op(op: &BinOp) -> Option<&BinOp> {
     }
 }
 
+/// Does `e` contain a `return`, or a `break`/`continue` that leaves `e` (i.e. not inside a loop nested in `e`)?
 pub fn contains_return(e: &Expr) -> bool {
     use syn::visit::Visit;
-    struct V(bool);
+    struct V {
+        found: bool,
+        depth: usize,
+    }
     impl<'ast> Visit<'ast> for V {
         fn visit_expr_return(&mut self, _: &'ast syn::ExprReturn) {
-            self.0 = true;
+            self.found = true;
+        }
+        fn visit_expr_break(&mut self, _: &'ast syn::ExprBreak) {
+            if self.depth == 0 {
+                self.found = true;
+            }
+        }
+        fn visit_expr_continue(&mut self, _: &'ast syn::ExprContinue) {
+            if self.depth == 0 {
+                self.found = true;
+            }
+        }
+        fn visit_expr_for_loop(&mut self, x: &'ast syn::ExprForLoop) {
+            self.depth += 1;
+            syn::visit::visit_expr_for_loop(self, x);
+            self.depth -= 1;
+        }
+        fn visit_expr_while(&mut self, x: &'ast syn::ExprWhile) {
+            self.depth += 1;
+            syn::visit::visit_expr_while(self, x);
+            self.depth -= 1;
+        }
+        fn visit_expr_loop(&mut self, x: &'ast syn::ExprLoop) {
+            self.depth += 1;
+            syn::visit::visit_expr_loop(self, x);
+            self.depth -= 1;
         }
         fn visit_expr_closure(&mut self, _: &'ast syn::ExprClosure) {}
         fn visit_item(&mut self, _: &'ast syn::Item) {}
     }
-    let mut v = V(false);
+    let mut v = V { found: false, depth: 0 };
     v.visit_expr(e);
-    v.0
+    v.found
 }
 
 fn root_var(e: &Expr) -> Option<String> {
@@ -1566,11 +2212,12 @@ fn root_var(e: &Expr) -> Option<String> {
     }
 }
 
-fn collect_mut(e: &Expr, assigned: &mut Vec<String>, declared: &mut Vec<String>) {
+fn collect_mut(e: &Expr, assigned: &mut Vec<String>, declared: &mut Vec<String>, mut_methods: &std::collections::HashSet<String>) {
     use syn::visit::Visit;
     struct V<'a> {
         a: &'a mut Vec<String>,
         d: &'a mut Vec<String>,
+        mm: &'a std::collections::HashSet<String>,
     }
     impl<'ast, 'a> Visit<'ast> for V<'a> {
         fn visit_expr_assign(&mut self, x: &'ast syn::ExprAssign) {
@@ -1590,7 +2237,7 @@ fn collect_mut(e: &Expr, assigned: &mut Vec<String>, declared: &mut Vec<String>)
             syn::visit::visit_expr_binary(self, x);
         }
         fn visit_expr_method_call(&mut self, x: &'ast syn::ExprMethodCall) {
-            if is_list_mutator(&x.method.to_string()) {
+            if is_list_mutator(&x.method.to_string()) || x.method == "take" || self.mm.contains(&x.method.to_string()) {
                 match root_var(&x.receiver) {
                     Some(n) => self.a.push(n),
                     None => self.a.push("<complex place>".into()),
@@ -1601,7 +2248,7 @@ fn collect_mut(e: &Expr, assigned: &mut Vec<String>, declared: &mut Vec<String>)
         fn visit_expr_reference(&mut self, x: &'ast syn::ExprReference) {
             if x.mutability.is_some() {
                 match root_var(&x.expr) {
-                    Some(n) => self.a.push(format!("&mut {}", n)),
+                    Some(n) => self.a.push(n),
                     None => self.a.push("<&mut of a complex place>".into()),
                 }
             }
@@ -1613,6 +2260,6 @@ fn collect_mut(e: &Expr, assigned: &mut Vec<String>, declared: &mut Vec<String>)
         fn visit_expr_closure(&mut self, _: &'ast syn::ExprClosure) {}
         fn visit_item(&mut self, _: &'ast syn::Item) {}
     }
-    let mut v = V { a: assigned, d: declared };
+    let mut v = V { a: assigned, d: declared, mm: mut_methods };
     v.visit_expr(e);
 }
